@@ -246,11 +246,162 @@ def run_case(case, ctx, mon):
     mon.nontrivial(unaligned(cfg) or len(used) > 1)
 
 
+def run_reattached_owner(case, ctx, mon):
+    """A shared_memory=True sketch (owner of its own segment B) that is then pointed at another owner's block A with
+    attach_existing_shm: it is a view of A from then on, and dropping it must remove B - the segment it owns - and leave A alone."""
+    cfg = case["cfg"]
+    kind = cfg["kind"]
+    a = make_by(cfg, "factory", True)
+    plain = make_by(cfg, "factory", False)
+    b = make_by(cfg, "factory", True)
+    path_a = "/dev/shm/" + a.shm.name.lstrip("/")
+    path_b = "/dev/shm/" + b.shm.name.lstrip("/")
+    universe = ops.universe_of([e[1] for e in case["events"]])[:20]
+    is_log = kind in ("log16", "log8")
+    for n_op, (_hi, op) in enumerate(case["events"][:4]):
+        if is_log:
+            state.share_draws(plain, a)
+            state.numba_seed(case["draw_seed"] + n_op)
+        ops.apply_op(plain, op)
+        if is_log:
+            state.numba_seed(case["draw_seed"] + n_op)
+        ops.apply_op(a, op)
+    b.add(b"own-history", 2)
+    mon.api(b.attach_existing_shm, a.shm.name)
+    agree(mon, plain, [("owner", a), ("re-attached owner of another segment", b)], kind, universe, cfg, "re-attach")
+    for n_op, (hi, op) in enumerate(case["events"][4:]):
+        h = (a, b)[hi % 2]
+        if is_log:
+            state.share_draws(plain, h)
+            state.numba_seed(case["draw_seed"] + 100 + n_op)
+        ops.apply_op(plain, op)
+        if is_log:
+            state.numba_seed(case["draw_seed"] + 100 + n_op)
+        mon.api(ops.apply_op, h, op)
+        agree(mon, plain, [("owner", a), ("re-attached owner of another segment", b)], kind, universe, cfg, [hi % 2, op])
+    h = None
+    ref = state.snapshot(plain, kind)
+    import contextlib
+    import io
+
+    with contextlib.redirect_stderr(io.StringIO()):  # the library's __del__ may report an ignored exception for such an object
+        del b
+        gc.collect()
+    mon.check(not os.path.exists(path_b), "dropping-the-owner-removes-the-segment", name=path_b, cfg=cfg, history="owner re-pointed at another block before it was dropped")
+    mon.check(os.path.exists(path_a), "dropping-a-view-keeps-the-segment", name=path_a, cfg=cfg, history="the view owned a segment of its own")
+    d = state.snap_diff(ref, state.snapshot(a, kind))
+    mon.check(not d, "dropping-a-view-keeps-owner-contents", differs_in=d, cfg=cfg)
+    if os.path.exists(path_b):
+        os.unlink(path_b)
+    del a
+    gc.collect()
+    mon.check(not os.path.exists(path_a), "dropping-the-owner-removes-the-segment", name=path_a, cfg=cfg)
+    mon.count("reattached_owner_cases")
+    mon.seen("reattached_owner_kind", kind)
+    mon.nontrivial(True)
+
+
+def _fork_child(cfg, wfd):
+    """Runs in a forked child: owner + view life-cycle with the library as the parent imported it; reports through a pipe."""
+    import json
+
+    out = {"stage": "start"}
+    try:
+        kind = cfg["kind"]
+        owner = make_by(cfg, "factory", True)
+        name = owner.shm.name.lstrip("/")
+        out["name"] = name
+        out["exists_after_create"] = os.path.exists("/dev/shm/" + name)
+        owner.add(b"k1", 3)
+        view = attach("helpers.attach_shared_memory", cfg, owner)
+        view.add(b"k2", 2)
+        if kind == "hll":
+            out["view_agrees"] = bool(np.array_equal(view.registers, owner.registers)) and float(view.query()) > 0
+        elif kind == "hh":
+            out["view_agrees"] = (bool(np.array_equal(view.lhh_count, owner.lhh_count)) and bool(np.array_equal(view.lhh, owner.lhh))
+                                  and int(owner.lhh_count.sum()) > 0 and int(view.n_added()) == int(owner.n_added()) == 5)
+        else:
+            out["view_agrees"] = (bool(np.array_equal(view.cms, owner.cms)) and float(owner.query(b"k2")) >= 2
+                                  and float(owner.query(b"k2")) == float(view.query(b"k2")) and int(view.n_added()) == int(owner.n_added()) == 5)
+        del view
+        gc.collect()
+        out["exists_after_view_dropped"] = os.path.exists("/dev/shm/" + name)
+        del owner
+        gc.collect()
+        out["exists_after_owner_dropped"] = os.path.exists("/dev/shm/" + name)
+        out["stage"] = "done"
+    except BaseException as exc:  # noqa: BLE001
+        out["error"] = f"{type(exc).__name__}: {exc}"[:300]
+    try:
+        os.write(wfd, json.dumps(out).encode())
+    finally:
+        os._exit(0)
+
+
+def run_forked_owner(case, ctx, mon):
+    """The owner is created (and dropped) in a child process forked after the library was imported - the default way a
+    multiprocessing worker comes to life on Linux."""
+    import json
+    import select
+    import signal
+
+    cfg = case["cfg"]
+    rfd, wfd = os.pipe()
+    pid = os.fork()
+    if pid == 0:
+        os.close(rfd)
+        _fork_child(cfg, wfd)
+    os.close(wfd)
+    buf = b""
+    ready, _, _ = select.select([rfd], [], [], 120)
+    if ready:
+        while True:
+            chunk = os.read(rfd, 65536)
+            if not chunk:
+                break
+            buf += chunk
+    else:
+        os.kill(pid, signal.SIGKILL)
+    os.close(rfd)
+    os.waitpid(pid, 0)
+    if not buf:
+        mon.inconclusive.append("forked child did not report within 120 s (killed)")
+        return
+    out = json.loads(buf.decode())
+    path = "/dev/shm/" + out.get("name", "?")
+    mon.check("error" not in out, "owner-life-cycle-in-a-forked-process-runs", error=out.get("error"), cfg=cfg)
+    mon.check(out.get("exists_after_create") is True, "owner-segment-exists", where="forked child", cfg=cfg)
+    mon.check(out.get("view_agrees") is True, "handle-state==ordinary-sketch-state", where="forked child", cfg=cfg)
+    mon.check(out.get("exists_after_view_dropped") is True, "dropping-a-view-keeps-the-segment", where="forked child", cfg=cfg)
+    leaked = out.get("exists_after_owner_dropped") is not False or os.path.exists(path)
+    if os.path.exists(path):
+        os.unlink(path)
+    mon.check(not leaked, "dropping-the-owner-removes-the-segment", where="owner created and dropped in a forked child process", name=out.get("name"), cfg=cfg)
+    mon.count("forked_owner_cases")
+    mon.seen("forked_owner_kind", cfg["kind"])
+    mon.nontrivial(True)
+
+
 def gen_cases(ctx):
     rng = ctx.rng("cases")
     n = 250 if ctx.quick else 10**9
     for i in range(n):
-        yield gen_case(rng, ctx, state.ALL_KINDS[i % 5])
+        c = gen_case(rng, ctx, state.ALL_KINDS[i % 5])
+        if i % 25 >= 20:
+            c["scenario"] = "reattached-owner"
+        yield c
+        if i % 50 < 5:
+            yield {"scenario": "forked-owner", "cfg": gen_cfg(rng, state.ALL_KINDS[i % 5])}
+
+
+def run_any(case, ctx, mon):
+    sc = case.get("scenario")
+    if sc == "reattached-owner":
+        run_reattached_owner(case, ctx, mon)
+    elif sc == "forked-owner":
+        run_forked_owner(case, ctx, mon)
+    else:
+        run_case(case, ctx, mon)
 
 
 def run(ctx, mon):
@@ -260,7 +411,7 @@ def run(ctx, mon):
     from ..common import shm_created_alive, track_shm
 
     track_shm()
-    run_cases(ctx, mon, gen_cases(ctx), run_case)
+    run_cases(ctx, mon, gen_cases(ctx), run_any)
     gc.collect()
     left = shm_created_alive()
     mon.begin_case({"census": "end of run"})
@@ -272,7 +423,7 @@ def replay(case, ctx, mon):
     state.fast_del(True)
     if "census" in case:
         return
-    run_case(case, ctx, mon)
+    run_any(case, ctx, mon)
 
 
 def floors(mon, ctx):
@@ -280,6 +431,8 @@ def floors(mon, ctx):
         mon.floor(f"cases of {kind}", mon.counters[f"cases:{kind}"], 10)
         if kind != "hll":
             mon.floor(f"unaligned cases of {kind}", mon.counters[f"unaligned_cases:{kind}"], 1)
+    mon.floor("owners re-pointed at another block before being dropped (kinds)", len(mon.classes["reattached_owner_kind"]), 5)
+    mon.floor("owners created and dropped in a forked child (kinds)", len(mon.classes["forked_owner_kind"]), 5)
     mon.floor("deletion orders", len(mon.classes["drop_order"]), 2)
     mon.floor("operations through a view", mon.counters["ops_via:view"], 100)
     mon.floor("merges out of / into handles", mon.counters["merges_through_handles"], 50)
